@@ -6,9 +6,13 @@ from props import C01, rwcommon as rc
 
 ID = "C10"
 PROP_FILE = "props/C10.v"
-COQ_TARGETS = ["props/C10.v"]
-THEOREMS = ["C10_guard_branches_agree", "C10_erase_sound"]
-TRUSTED_BASE = C01.TRUSTED_BASE
+COQ_TARGETS = ["props/C10.v", "model/FragLoop.v"]
+THEOREMS = ["C10_guard_branches_agree", "C10_erase_sound", "C10_frag_results", "C10_frag_plain", "C10_frag_stream"]
+TRUSTED_BASE = C01.TRUSTED_BASE + [
+    "model/FragLoop.v (while loops, the two guards of a loop, pristine copies, try / finally, evaluation under an arbitrary guard policy on fuel, the gated reference "
+    "stream), tied by K-loop (tools/impl/c10_sem.py: real rewriter output tree with guard names canonicalised to (kind, loop), real runs whose handler activates / "
+    "deactivates guards by rule; exception type, bindings and recorded stream = the evaluator's; the gated reference is the oracle)",
+]
 ASSUMPTIONS = ["handlers only toggle guards (they do not override values); guard names are those handed to the handlers of the bracket events"]
 BRACKETS = ["after_for_loop_iter", "after_while_loop_iter", "after_function_execution", "before_for_loop_body", "before_while_loop_body",
             "before_function_body", "after_comprehension_elt", "after_comprehension_if", "after_dict_comprehension_key", "after_dict_comprehension_value"]
